@@ -72,6 +72,7 @@ pub struct Config {
     pub classic_grep_header_file_style: Style,
     pub classic_grep_header_style: Style,
     pub ripgrep_header_style: Style,
+    pub ripgrep_header_file_style: Style,
     pub grep_line_number_style: Style,
     pub grep_match_line_style: Style,
     pub grep_match_word_style: Style,
@@ -351,6 +352,13 @@ impl From<cli::Opt> for Config {
             classic_grep_header_file_style: styles["classic-grep-header-file-style"],
             classic_grep_header_style: styles["classic-grep-header-style"],
             ripgrep_header_style: styles["ripgrep-header-style"],
+            // (the path in the header of a file's hits: grep-header-file-style if given, else as
+            // the path is painted elsewhere)
+            ripgrep_header_file_style: if opt.grep_header_file_style.is_some() {
+                styles["ripgrep-header-file-style"]
+            } else {
+                styles["grep-file-style"]
+            },
             grep_line_number_style: styles["grep-line-number-style"],
             grep_match_line_style: styles["grep-match-line-style"],
             grep_match_word_style: styles["grep-match-word-style"],
